@@ -27,6 +27,7 @@ type omap struct {
 	idx     map[int][]int // hash -> entry indices (concrete keys only)
 	n       int           // live entries
 	symKeys []int         // indices of entries whose key is symbolic
+	noRace  bool          // internally synchronised container (sync.Map model): no race bookkeeping
 }
 
 func makeMap(kt types.Type, reserve int64) value {
@@ -85,7 +86,7 @@ func (m *omap) find(i *interpreter, k value) int {
 }
 
 func (m *omap) lookup(i *interpreter, k value) (value, bool) {
-	if i.sched != nil && m != nil {
+	if i.sched != nil && m != nil && !m.noRace {
 		i.sched.accessCheck(i, m, false, "Go map")
 	}
 	e := m.find(i, k)
@@ -99,7 +100,7 @@ func (m *omap) insert(i *interpreter, k, v value) {
 	if m == nil {
 		panic("assignment to entry in nil map")
 	}
-	if i.sched != nil {
+	if i.sched != nil && !m.noRace {
 		i.sched.accessCheck(i, m, true, "Go map")
 	}
 	if e := m.find(i, k); e >= 0 {
@@ -134,7 +135,7 @@ func (m *omap) delete(i *interpreter, k value) {
 	if m == nil {
 		return
 	}
-	if i.sched != nil {
+	if i.sched != nil && !m.noRace {
 		i.sched.accessCheck(i, m, true, "Go map")
 	}
 	e := m.find(i, k)
